@@ -60,13 +60,14 @@ def _on_this(e):
 
 
 class Run:
-    def __init__(self, prog, f, bufs, ptr_params=None, int_params=None, mem_ptrs=None, call_ptrs=None, growable=(), mems=None, depth=0, budget=None, methods=None, ignore=None, objects=False):
+    def __init__(self, prog, f, bufs, ptr_params=None, int_params=None, mem_ptrs=None, call_ptrs=None, growable=(), mems=None, depth=0, budget=None, methods=None, ignore=None, objects=False, externs=None):
         self.prog, self.f = prog, f
         self.bufs = bufs                        # name -> list of ints (shared with sub-runs)
         self.vars = {}                          # var id -> int | ('P', buf, idx)
         self.mems = mems if mems is not None else {}   # member name -> value (shared with sub-runs of the same object)
         self.methods = methods or {}            # method name -> 'interp' | callable(run, call expr, arg values)
         self.ignore = ignore                    # callable(stmt) -> True: statement irrelevant to the tracked state, skipped
+        self.externs = externs or {}            # name of an external (system) function -> callable(run, call expr, arg values)
         self.objects = objects                  # True: local asl::String / asl::Array objects are modelled as bounds-checked buffers
         self.objlen = {}                        # var id -> element count of a modelled object (locals and registered parameters)
         self.boxed = {}                         # var id -> buffer name (locals whose address was taken)
@@ -587,6 +588,8 @@ class Run:
             for j in range(n_):
                 self.store(('P', dst[1], dst[2] + j), vals[j], e.get('l'))
             return dst
+        if fn in self.externs and not e.get('clsp') and e.get('obj') is None:
+            return self.externs[fn](self, e, [self.val(a) for a in e.get('a', [])])
         if fn in ('strlen', 'strstr', 'strchr', 'strrchr') and not e.get('clsp'):
             return self.libc_str(e, fn)
         if fn in ('snprintf', 'sprintf') and not e.get('clsp'):
@@ -616,7 +619,7 @@ class Run:
                 if not cands:
                     raise Unsupported('method %s has no body' % fn)
                 g = cands[0]
-                sub = Run(self.prog, g, self.bufs, depth=self.depth + 1, budget=self.budget, growable=self.growable, mems=self.mems, methods=self.methods, ignore=self.ignore, call_ptrs=self.call_ptrs)
+                sub = Run(self.prog, g, self.bufs, depth=self.depth + 1, budget=self.budget, growable=self.growable, mems=self.mems, methods=self.methods, ignore=self.ignore, call_ptrs=self.call_ptrs, externs=self.externs)
                 for p_, a in zip(g['params'], args):
                     sub.vars[p_['id']] = wrap(a, T(g, p_['t']))
                 return sub.run()
@@ -627,7 +630,7 @@ class Run:
         if not cands:
             raise Unsupported('call of %s' % fn)
         g = cands[0]
-        sub = Run(self.prog, g, self.bufs, depth=self.depth + 1, budget=self.budget, growable=self.growable)
+        sub = Run(self.prog, g, self.bufs, depth=self.depth + 1, budget=self.budget, growable=self.growable, externs=self.externs)
         for p_, a in zip(g['params'], e.get('a', [])):
             sub.vars[p_['id']] = wrap(self.val(a), T(g, p_['t']))
         return sub.run()
